@@ -7,8 +7,8 @@ from .ci_adapter import contains
 FIELDS = ["path", "mtime", "size", "volume_id", "type", "format", "arch", "disc_number", "disc_count", "checksums", "implant_md5",
           "bootable", "subvariant", "unified", "additional_variants"]
 PATHS = [{"p1": "Server/x86_64/iso/z-boot.iso", "p2": "Server/x86_64/iso/a-dvd.iso", "p3": "unified/m.iso", "p4": "Client/b.iso",
-          "p5": "Server/x86_64/iso/a-dvd2.iso", "p6": "0/first.iso", "p8": "x/p8.iso", "p9": "Server/x86_64/iso/twin.iso"},
-         {"p1": "b.iso", "p2": "a.iso", "p3": "B.iso", "p4": "a/a.iso", "p5": "a.iso.2", "p6": "_.iso", "p8": "p8", "p9": "c.iso"}]
+          "p5": "Server/x86_64/iso/a-dvd2.iso", "p6": "0/first.iso", "p8": "x/p8.iso", "p9": "Server/x86_64/iso/twin.iso", "p10": "Server/x86_64/os/images/z-boot.iso"},
+         {"p1": "b.iso", "p2": "a.iso", "p3": "B.iso", "p4": "a/a.iso", "p5": "a.iso.2", "p6": "_.iso", "p8": "p8", "p9": "c.iso", "p10": "latest/b.iso"}]
 VARS = [{"V1": "Server", "V2": "Client", "V-3": "Server-optional"}, {"V1": "b", "V2": "a", "V-3": "a-b"}]
 AV = {"none": [], "one": ["Client"], "two": ["Workstation", "Client"]}
 COMPOSES = [dict(label=None, final=False, ctype="production", respin=0), dict(label="RC-2.1", final=True, ctype="nightly", respin=3),
@@ -35,11 +35,13 @@ class Conc(object):
         if spec.get("twinof", n) != n:
             # same identity as its twin (every identifying attribute), but its own path, mtime and checksums
             f = self.fields(spec["twinof"], dict(spec, twinof=spec["twinof"], pathof=n))
-            f.update({"mtime": 1432300000 + j, "checksums": {"sha256": "%x" % j * 64}})
+            f["mtime"] = 1432300000 + j
+            if spec.get("sumsof", n) == n:
+                f["checksums"] = {"sha256": "%x" % (j % 16) * 64}
             return f
         t = self.types[(self.rot * 6 + j) % len(self.types)]
         fmts = self.fmap[t] or self.allfmt
-        return {"path": self.paths[spec.get("pathof", n)], "mtime": 1432300000 + j, "size": 1234 + j if spec["size"] == "small" else (1 << 33) + j,
+        return {"path": self.paths[spec.get("pathof", n)], "mtime": 1432300000 + j, "size": 1234 + j if spec["size"] == "small" else (1 << (33 if self.rot % 3 else 62)) + j,
                 "volume_id": None if spec["volume_id"] == "null" else "Vol %s-22" % n, "type": t, "format": fmts[(self.rot + j) % len(fmts)],
                 "arch": [self.arch["a1"], self.arch["a2"], "src"][j % 3], "disc_number": spec["disc_number"], "disc_count": spec.get("disc_count", 3),
                 "checksums": {"sha256": "%x" % j * 64} if spec["checksums"] == "one" else {"md5": "%x" % j * 32, "sha256": "%x" % (j + 6) * 64},
@@ -71,7 +73,12 @@ def evaluate(case):
     try:
         for c in sorted(case["obj"], key=lambda c: (c["a"], c["v"])):
             for n in sorted(c["imgs"], reverse=True):
-                m.add(conc.vars[c["v"]], conc.arch[c["a"]], objs[n])
+                try:
+                    m.add(conc.vars[c["v"]], conc.arch[c["a"]], objs[n])
+                except ValueError:
+                    # callers that file one image under several variants catch the refusal and go on; the same call again
+                    # must be refused again
+                    m.add(conc.vars[c["v"]], conc.arch[c["a"]], objs[n])
         if conc.rot % 3 == 0:
             # an image withdrawn again: the emptied (variant, arch) set holds nothing to write
             tmp = Image(m)
